@@ -36,6 +36,9 @@ def scenarios(tier):
                 out.append(Scenario('ks', k=k, pat=pat, n=n, w=0.0, probe=False))
     for pat in ('obedient', 'stubborn'):
         out.append(Scenario('ks', k='none', pat=pat, n=2, w=0.25, probe=False))
+    # on-demand watcher: a worker dies / incr after the first connection, then the next socket event
+    for tail in ('die', 'incr'):
+        out.append(Scenario('ondemand', tail=tail, n=2, nodet=True))
     # read-only probes at every L-point of canonical long operations
     for op in ('stop', 'restart', 'reload-seq', 'incr', 'quit', 'kill-long'):
         for pat in ('stubborn', 'slow'):
@@ -44,7 +47,7 @@ def scenarios(tier):
 
 
 def bound(tier, scn):
-    if scn.name == 'probe':
+    if scn.name in ('probe', 'ondemand'):
         return 0
     return 1 if tier == 'quick' else 2
 
@@ -86,6 +89,8 @@ class S(object):
 
 def run(scn, ch):
     res = Result()
+    if scn.name == 'ondemand':
+        return _run_ondemand(scn, ch, res)
     world = World(ch, [WSpec('a', numprocesses=scn.n, graceful_timeout=G, warmup_delay=scn.w,
                              behaviours=pattern(scn.pat)),
                        WSpec('b', numprocesses=1, graceful_timeout=G)])
@@ -187,3 +192,48 @@ def _run_probe(scn, ch, res, world):
     except Abort as e:
         res.check('C05.callback_budget', False, 'probe %s: %s' % (scn.op, e), where=world.blocked_site())
         return finish(world, res, aborted=str(e))
+
+
+def _run_ondemand(scn, ch, res):
+    import socket
+    from circus.sockets import CircusSocket
+    from vt.events import EXIT1
+    sock = CircusSocket.load_from_config({'name': 'web', 'host': '127.0.0.1', 'port': '0'})
+    world = World(ch, [WSpec('od', numprocesses=scn.n if scn.tail == 'die' else 1, graceful_timeout=G, on_demand=True,
+                             use_sockets=True, cmd='worker --fd $(circus.sockets.web)')], sockets=[sock])
+    clients = []
+    try:
+        world.boot()
+        world.run(until=lambda w: w.boot_future.done(), horizon=5)
+        world.settle(1)
+
+        def connect():
+            c = socket.socket(socket.AF_INET, socket.SOCK_STREAM)
+            c.settimeout(0.5)
+            c.connect(world.arbiter.sockets['web'].getsockname())
+            clients.append(c)
+        connect()
+        world.settle(2)
+        started = len(world.procs_of('od', [RUNNING]))
+        res.check('C05.ondemand_started', started >= 1, 'on-demand watcher did not start on a connection', where='arbiter.manage_watchers')
+        if scn.tail == 'die':
+            world.die(world.procs_of('od', [RUNNING])[0].pid, EXIT1)
+        else:
+            world.request('incr', name='od')
+        world.settle(1)
+        connect()                  # the next socket event
+        world.settle(2)
+        _probe_all(world, res, 'on-demand watcher after %s + socket event' % scn.tail)
+        res.ev('C05.callback_budget', True)
+        res.outcome = digest([scn.tail, [(p.state) for p in world.kernel.spawn_log]])
+        return finish(world, res)
+    except Abort as e:
+        res.check('C05.callback_budget', False,
+                  'on-demand watcher, %s after the first connection, then the next socket event: %s at %s'
+                  % (scn.tail, e, CLOCK.blocked_where), where=world.blocked_site() + '/on-demand-start-reaps-live-workers')
+        return finish(world, res, aborted=str(e))
+    finally:
+        for c in clients:
+            c.close()
+        if not world.closed:
+            world.close()
